@@ -25,6 +25,10 @@ func probeDesign() *m.Design {
 	s.Methods = append(s.Methods, &m.Method{Name: "cookie",
 		Payload: rt.Obj(rt.Fld("tags", m.Prim(m.String), true), rt.Fld("code", m.Prim(m.String), true)),
 		HTTP:    &m.HTTPEndpoint{Routes: []m.Route{{Verb: "GET", Path: "/cookie"}}, Headers: []m.Mapping{{Attr: "tags", Wire: "X-A"}}, Cookies: []m.Mapping{{Attr: "code"}}}})
+	s.Methods = append(s.Methods, &m.Method{Name: "union",
+		Payload: rt.Obj(rt.Fld("choice", &m.Attr{Type: &m.Type{Kind: m.Union, Fields: []*m.Field{
+			rt.Fld("num", &m.Attr{Type: &m.Type{Kind: m.Int}, V: &m.Validation{Max: fp(10)}}, false), rt.Fld("text", m.Prim(m.String), false)}}}, true)),
+		HTTP: &m.HTTPEndpoint{Routes: []m.Route{{Verb: "POST", Path: "/union"}}}})
 	d.Services = []*m.Service{s}
 	return d
 }
@@ -60,6 +64,10 @@ func TestProbes(t *testing.T) {
 			t.Fatalf("INCONCLUSIVE: %v", err)
 		}
 		return o.StubCalls == 1, "required header X-A deleted while the required cookie is present: method invoked " + itoa(o.StubCalls) + " time(s)"
+	})
+	rt.Probe("C04-union-alternative-validations-not-enforced", func() (bool, string) {
+		o := call("union", value.Object(value.Field{N: "choice", V: value.V{K: "union", S: "num", A: []value.V{value.Int(11)}}}))
+		return o.StubCalls == 1, "payload {choice: num(11)} with Maximum(10) on the alternative: method invoked " + itoa(o.StubCalls) + " time(s)"
 	})
 	rt.Probe("C04-exclusive-maximum-ignored-with-exclusive-minimum", func() (bool, string) {
 		o := call("excl", value.Object(value.Field{N: "b", V: value.Int(4)}))
